@@ -345,6 +345,7 @@ def argOK : Arg → Prop
   | .nums ks => ∀ k ∈ ks, k < 2 ^ 63
   | .align a => ∀ n ∈ a, n < 2 ^ 63
   | .tyvals ixs => ∀ p ∈ ixs, operandOK p.2
+  | .flags _ => True
 
 /-- a local or a global (not a constant) -/
 def isRef : Operand → Bool
@@ -366,6 +367,10 @@ inductive Matches : List Slot → List Arg → Prop
   | tyvals (ixs : List (Ty × Operand)) {fs : List Slot} {as : List Arg} : Matches fs as → Matches (.tyvals :: fs) (.tyvals ixs :: as)
   | callee (o : Operand) (h : isRef o = true) {fs : List Slot} {as : List Arg} : Matches fs as → Matches (.callee :: fs) (.val o :: as)
   | cargs (ixs : List (Ty × Operand)) {fs : List Slot} {as : List Arg} : Matches fs as → Matches (.cargs :: fs) (.tyvals ixs :: as)
+  | flags (ks : List Bytes) (xs : List Nat) (t : Ty) (o : Operand) (hb : ∀ i ∈ xs, i < ks.length) (hty : flagTyOK ks t = true)
+      {fs : List Slot} {as : List Arg} : Matches fs as → Matches (.flags ks :: .tyval :: fs) (.flags xs :: .tyval t o :: as)
+  | flagsTy (ks : List Bytes) (xs : List Nat) (t : Ty) (hb : ∀ i ∈ xs, i < ks.length) (hty : flagTyCommaOK ks t = true)
+      {fs : List Slot} {as : List Arg} : Matches fs as → Matches (.flags ks :: .ty :: fs) (.flags xs :: .ty t :: as)
 
 theorem matches_nil (as : List Arg) (h : Matches [] as) : as = [] := by cases h; rfl
 
@@ -391,6 +396,61 @@ def tyFollow : List Slot → Bool
   | [.align] => true
   | _ => false
 
+/-- two byte strings differ at a position both have -/
+def diverge : Bytes → Bytes → Bool
+  | a :: p, b :: q => a != b || diverge p q
+  | _, _ => false
+
+theorem stripPrefix_diverge : ∀ (p q rest : Bytes), diverge p q = true → TyParse.stripPrefix p (q ++ rest) = none
+  | [], _, _, h => by simp [diverge] at h
+  | _ :: _, [], _, h => by simp [diverge] at h
+  | a :: p, b :: q, rest, h => by
+    simp only [diverge, Bool.or_eq_true, bne_iff_ne, ne_eq] at h
+    simp only [List.cons_append, TyParse.stripPrefix]
+    by_cases hab : a = b
+    · subst hab
+      simp only [beq_self_eq_true, if_true]
+      exact stripPrefix_diverge p q rest (by rcases h with h | h; exact absurd rfl h; exact h)
+    · simp [hab]
+
+theorem stripPrefix_both : ∀ (p a b : Bytes), TyParse.stripPrefix (p ++ a) (p ++ b) = TyParse.stripPrefix a b
+  | [], a, b => rfl
+  | c :: p, a, b => by simp [TyParse.stripPrefix, stripPrefix_both p a b]
+
+theorem stripPrefix_extend : ∀ (p A X : Bytes), TyParse.stripPrefix p A = none → (TyParse.stripPrefix p (A ++ X)).isSome = true →
+    ∃ q, q ≠ [] ∧ p = A ++ q
+  | [], A, X, h, _ => by simp [TyParse.stripPrefix] at h
+  | c :: p, [], X, _, _ => ⟨c :: p, by simp, rfl⟩
+  | c :: p, a :: A, X, h, h2 => by
+    simp only [TyParse.stripPrefix, List.cons_append] at h h2
+    by_cases hca : (c == a) = true
+    · simp only [hca, if_true] at h h2
+      obtain ⟨q, hq, hp⟩ := stripPrefix_extend p A X h h2
+      have : c = a := by simpa using hca
+      exact ⟨q, hq, by rw [hp, this]; rfl⟩
+    · simp [hca] at h2
+
+/-- a text that ends with a space and does not start with the keyword `k` followed by a space does not start with it whatever is appended -/
+theorem stripPrefix_key_append (k A X : Bytes) (hk : (32 : UInt8) ∉ k) (hl : A.getLast? = some 32)
+    (h : TyParse.stripPrefix (k ++ [32]) A = none) : TyParse.stripPrefix (k ++ [32]) (A ++ X) = none := by
+  cases hs : TyParse.stripPrefix (k ++ [32]) (A ++ X) with
+  | none => rfl
+  | some r =>
+    exfalso
+    obtain ⟨q, hq, hp⟩ := stripPrefix_extend (k ++ [32]) A X h (by rw [hs]; rfl)
+    have hq' : q = q.dropLast ++ [q.getLast hq] := (List.dropLast_concat_getLast hq).symm
+    rw [hq', ← List.append_assoc] at hp
+    obtain ⟨h1, _⟩ := List.append_inj' hp (by simp)
+    have hmem : (32 : UInt8) ∈ A := List.mem_of_getLast? hl
+    exact hk (by rw [h1]; simp [hmem])
+
+/-- flag keywords: non-empty, without a space, and (each followed by a space) diverging from every later one -/
+def keysDiverge : List Bytes → Bool
+  | [] => true
+  | k :: ks => ks.all (fun q => diverge (k ++ [32]) (q ++ [32])) && keysDiverge ks
+
+def keysOK (ks : List Bytes) : Bool := ks.all (fun k => !k.contains 32) && keysDiverge ks
+
 /-- shape of a row: what follows each kind of slot; the two list-like slots end the row -/
 def fmtOK : List Slot → Bool
   | [] => true
@@ -406,6 +466,7 @@ def fmtOK : List Slot → Bool
   | .tyvals :: fs => fs.isEmpty
   | .callee :: fs => (match fs with | [.cargs] => true | _ => false)
   | .cargs :: fs => fs.isEmpty
+  | .flags ks :: fs => keysOK ks && (match fs with | .tyval :: _ => true | .ty :: .lit (44 :: 32 :: _) :: _ => true | _ => false) && fmtOK fs
 
 theorem endOK_print (useHex : Int → Bool) (cur : Ty) (fs : List Slot) (as : List Arg)
     (hs : startsComma fs = true) : endOK (printSlots useHex cur fs as) = true := by
@@ -546,6 +607,50 @@ theorem readAlign_print (a : Option Nat) (h : ∀ n ∈ a, n < 2 ^ 63) : readAli
       simp [sAlign, TyParse.stripPrefix]
     rw [hs]
     simp only [readAlign, hsp, parseUint63_natDec n hn]
+
+theorem findFlag_spec : ∀ (ks : List Bytes) (i0 i : Nat) (k rest : Bytes), keysDiverge ks = true → ks[i]? = some k →
+    findFlag i0 ks (k ++ [32] ++ rest) = some (i0 + i, rest)
+  | [], _, _, _, _, _, h => by simp at h
+  | q :: ks, i0, 0, k, rest, _, h => by
+    simp at h; subst h
+    have e : q ++ [32] ++ rest = (q ++ [32]) ++ rest := rfl
+    simp only [findFlag, e, TyParse.stripPrefix_append, Nat.add_zero]
+  | q :: ks, i0, i + 1, k, rest, hd, h => by
+    simp only [keysDiverge, Bool.and_eq_true, List.all_eq_true] at hd
+    have hr : ks[i]? = some k := by simpa using h
+    have hmem : k ∈ ks := List.mem_of_getElem? hr
+    have : TyParse.stripPrefix (q ++ [32]) (k ++ [32] ++ rest) = none :=
+      stripPrefix_diverge (q ++ [32]) (k ++ [32]) rest (hd.1 k hmem)
+    simp only [findFlag, this]
+    rw [findFlag_spec ks (i0 + 1) i k rest hd.2 hr]
+    simp; omega
+
+theorem findFlag_none : ∀ (ks : List Bytes) (i0 : Nat) (s : Bytes), (∀ k ∈ ks, TyParse.stripPrefix (k ++ [32]) s = none) → findFlag i0 ks s = none
+  | [], _, _, _ => rfl
+  | k :: ks, i0, s, h => by
+    simp only [findFlag, h k (by simp)]
+    exact findFlag_none ks (i0 + 1) s (fun q hq => h q (by simp [hq]))
+
+theorem readFlags_print (ks : List Bytes) (rest : Bytes) (hd : keysDiverge ks = true)
+    (hrest : ∀ k ∈ ks, TyParse.stripPrefix (k ++ [32]) rest = none) :
+    ∀ (xs : List Nat) (f : Nat), (∀ i ∈ xs, i < ks.length) → xs.length + 1 ≤ f → readFlags f ks (flagsString ks xs ++ rest) = (xs, rest)
+  | [], f, _, hf => by
+    obtain ⟨f', rfl⟩ : ∃ f', f = f' + 1 := ⟨f - 1, by simp at hf; omega⟩
+    simp [flagsString, readFlags, findFlag_none ks 0 rest hrest]
+  | i :: xs, f, hb, hf => by
+    obtain ⟨f', rfl⟩ : ∃ f', f = f' + 1 := ⟨f - 1, by simp at hf; omega⟩
+    have hi : i < ks.length := hb i (by simp)
+    have hk : ks[i]? = some (ks.getD i []) := by
+      simp [List.getD, List.getElem?_eq_getElem hi]
+    have ih := readFlags_print ks rest hd hrest xs f' (fun j hj => hb j (by simp [hj])) (by simp at hf ⊢; omega)
+    have e : flagsString ks (i :: xs) ++ rest = ks.getD i [] ++ [32] ++ (flagsString ks xs ++ rest) := by
+      simp [flagsString]
+    rw [e]
+    simp only [readFlags, findFlag_spec ks 0 i (ks.getD i []) _ hd hk, Nat.zero_add, ih]
+
+theorem flagsString_len (ks : List Bytes) : ∀ (xs : List Nat), xs.length ≤ (flagsString ks xs).length
+  | [] => by simp [flagsString]
+  | i :: xs => by have := flagsString_len ks xs; simp [flagsString]; omega
 
 theorem readCallee_print (useHex : Int → Bool) (o : Operand) (r : Bytes) (hr : isRef o = true) (ho : operandOK o) (he : identEnd r = true) :
     readCallee (operandString useHex calleeTy o ++ r) = some (o, r) := by
@@ -704,6 +809,76 @@ theorem read_print_slots (useHex : Int → Bool) (fs : List Slot) (as : List Arg
       simp only [printSlots, readSlots, List.append_nil]
       rw [readCallee_print useHex o _ hr ho hend]
       simp only [readCargs_print useHex ixs hk]
+  | @flags ks xs t o hb hty fs' as' hm ih =>
+    intro cur hf ha
+    simp only [fmtOK, Bool.and_eq_true] at hf
+    obtain ⟨⟨hkeys, _⟩, hf2⟩ := hf
+    simp only [keysOK, Bool.and_eq_true, List.all_eq_true] at hkeys
+    have ho : operandOK o := ha (.tyval t o) (by simp)
+    have ha' : ∀ a ∈ as', argOK a := fun a h => ha a (by simp [h])
+    -- what follows the flags starts with the type, which starts with none of the keywords
+    have hrest : ∀ k ∈ ks, TyParse.stripPrefix (k ++ [32])
+        (tyString t ++ [32] ++ operandString useHex t o ++ printSlots useHex t fs' as') = none := by
+      intro k hk
+      have h1 : TyParse.stripPrefix (k ++ [32]) (tyString t ++ [32]) = none := by
+        have := List.all_eq_true.mp hty k hk
+        cases h' : TyParse.stripPrefix (k ++ [32]) (tyString t ++ [32]) with
+        | none => rfl
+        | some x => rw [h'] at this; simp at this
+      have hk32 : (32 : UInt8) ∉ k := by
+        have := hkeys.1 k hk
+        simpa using this
+      have := stripPrefix_key_append k (tyString t ++ [32]) (operandString useHex t o ++ printSlots useHex t fs' as') hk32 (by simp) h1
+      simpa [List.append_assoc] using this
+    have hrf := readFlags_print ks _ hkeys.2 hrest xs
+      ((flagsString ks xs ++ (tyString t ++ [32] ++ operandString useHex t o ++ printSlots useHex t fs' as')).length + 1) hb
+      (by have := flagsString_len ks xs; simp only [List.length_append] at this ⊢; omega)
+    simp only [printSlots, readSlots, List.append_assoc, List.cons_append, List.nil_append] at hrf ⊢
+    rw [hrf]
+    simp only
+    rw [tyval_step useHex t o _ ho]
+    simp only [readOperand_operandString useHex t o _ ho (opEnd_print useHex t fs' as' hf2.1)]
+    simp only [ih t hf2.2 ha']
+  | @flagsTy ks xs t hb hty fs' as' hm ih =>
+    intro cur hf ha
+    simp only [fmtOK, Bool.and_eq_true] at hf
+    obtain ⟨⟨hkeys, hshape⟩, hf2⟩ := hf
+    simp only [keysOK, Bool.and_eq_true, List.all_eq_true] at hkeys
+    have ha' : ∀ a ∈ as', argOK a := fun a h => ha a (by simp [h])
+    -- the slot after the type is the literal `, …`
+    obtain ⟨l, fs'', hfs⟩ : ∃ l fs'', fs' = .lit (44 :: 32 :: l) :: fs'' := by
+      split at hshape
+      · rename_i h; cases h
+      · rename_i h; injection h with _ h2; exact ⟨_, _, h2⟩
+      · cases hshape
+    subst hfs
+    have hrest : ∀ k ∈ ks, TyParse.stripPrefix (k ++ [32])
+        (tyString t ++ printSlots useHex t (.lit (44 :: 32 :: l) :: fs'') as') = none := by
+      intro k hk
+      have h1 : TyParse.stripPrefix (k ++ [32]) (tyString t ++ sComma) = none := by
+        have := List.all_eq_true.mp hty k hk
+        cases h' : TyParse.stripPrefix (k ++ [32]) (tyString t ++ sComma) with
+        | none => rfl
+        | some x => rw [h'] at this; simp at this
+      have hk32 : (32 : UInt8) ∉ k := by
+        have := hkeys.1 k hk
+        simpa using this
+      have := stripPrefix_key_append k (tyString t ++ sComma) (l ++ printSlots useHex t fs'' as') hk32 (by simp [sComma]) h1
+      simpa [printSlots, sComma, List.append_assoc] using this
+    have hrf := readFlags_print ks _ hkeys.2 hrest xs
+      ((flagsString ks xs ++ (tyString t ++ printSlots useHex t (.lit (44 :: 32 :: l) :: fs'') as')).length + 1) hb
+      (by have := flagsString_len ks xs; simp only [List.length_append] at this ⊢; omega)
+    have hm' := hm
+    simp only [printSlots, readSlots, List.append_assoc] at hrf ⊢
+    rw [hrf]
+    simp only
+    have hte : tyEnd (printSlots useHex t (.lit (44 :: 32 :: l) :: fs'') as') = true := by simp [printSlots, tyEnd]
+    have := ty_step t _ hte
+    simp only [printSlots] at this
+    rw [this]
+    have h3 := ih t hf2.2 ha'
+    simp only [printSlots, readSlots] at h3
+    simp only [h3]
   | @cargs ixs fs' as' hm ih =>
     intro cur hf ha
     simp only [fmtOK, List.isEmpty_iff] at hf
@@ -715,40 +890,6 @@ theorem read_print_slots (useHex : Int → Bool) (fs : List Slot) (as : List Arg
 
 /-! ### the row table -/
 
-
-/-- two byte strings differ at a position both have -/
-def diverge : Bytes → Bytes → Bool
-  | a :: p, b :: q => a != b || diverge p q
-  | _, _ => false
-
-theorem stripPrefix_diverge : ∀ (p q rest : Bytes), diverge p q = true → TyParse.stripPrefix p (q ++ rest) = none
-  | [], _, _, h => by simp [diverge] at h
-  | _ :: _, [], _, h => by simp [diverge] at h
-  | a :: p, b :: q, rest, h => by
-    simp only [diverge, Bool.or_eq_true, bne_iff_ne, ne_eq] at h
-    simp only [List.cons_append, TyParse.stripPrefix]
-    by_cases hab : a = b
-    · subst hab
-      simp only [beq_self_eq_true, if_true]
-      exact stripPrefix_diverge p q rest (by rcases h with h | h; exact absurd rfl h; exact h)
-    · simp [hab]
-
-theorem stripPrefix_both : ∀ (p a b : Bytes), TyParse.stripPrefix (p ++ a) (p ++ b) = TyParse.stripPrefix a b
-  | [], a, b => rfl
-  | c :: p, a, b => by simp [TyParse.stripPrefix, stripPrefix_both p a b]
-
-theorem stripPrefix_extend : ∀ (p A X : Bytes), TyParse.stripPrefix p A = none → (TyParse.stripPrefix p (A ++ X)).isSome = true →
-    ∃ q, q ≠ [] ∧ p = A ++ q
-  | [], A, X, h, _ => by simp [TyParse.stripPrefix] at h
-  | c :: p, [], X, _, _ => ⟨c :: p, by simp, rfl⟩
-  | c :: p, a :: A, X, h, h2 => by
-    simp only [TyParse.stripPrefix, List.cons_append] at h h2
-    by_cases hca : (c == a) = true
-    · simp only [hca, if_true] at h h2
-      obtain ⟨q, hq, hp⟩ := stripPrefix_extend p A X h h2
-      have : c = a := by simpa using hca
-      exact ⟨q, hq, by rw [hp, this]; rfl⟩
-    · simp [hca] at h2
 
 /-- a text that ends with a space and does not start with `void ` does not start with it whatever follows -/
 theorem startsVoid_append (A X : Bytes) (hl : A.getLast? = some 32) (h : startsVoid A = false) : startsVoid (A ++ X) = false := by
